@@ -96,6 +96,10 @@ class Body(object):
 
 def new_temp_file(directory=None, hint=''):
     '''Return a new temporary file.'''
+    if directory:
+        # The directory prefix of the downloads may not exist yet.
+        os.makedirs(directory, exist_ok=True)
+
     return tempfile.NamedTemporaryFile(
         prefix='tmp-wpull-{0}-'.format(hint), suffix='.tmp', dir=directory)
 
